@@ -151,10 +151,11 @@ def constant(c):
 
 
 # ------------------------------------------------------------------------------------------------------------------ embeddings
-def arc(ls, angle, radius, base):
+def arc(ls, angle, radius, base, delta=None):
     def g(x):
         z = PI * angle * x / ls
-        return torch.cat([radius * torch.sin(z), radius * torch.cos(z)])
+        m = torch.ones_like(x) if delta is None else delta(x)   # the documented activity indicator acts on the raw input x
+        return torch.cat([radius * torch.sin(z) * m, radius * torch.cos(z) * m])
 
     return lambda a, b: base(g(a), g(b))
 
